@@ -111,6 +111,21 @@ def check(ix, rep):
                                 and st.targets[0].elts[0].id == call.args[0].id and isinstance(st.value, ast.Call) and isinstance(st.value.func, ast.Attribute) \
                                 and st.value.func.attr in ('partition', 'split') and st.value.args and isinstance(st.value.args[0], ast.Constant) and st.value.args[0].value == '.':
                             head_ok = True
+                        # id_head, id_tail = self.split_id(id): a helper of the visitor that returns (part before the first '.', rest)
+                        if isinstance(st, ast.Assign) and isinstance(st.targets[0], ast.Tuple) and st.targets[0].elts and isinstance(st.targets[0].elts[0], ast.Name) \
+                                and st.targets[0].elts[0].id == call.args[0].id and isinstance(st.value, ast.Call) and D._self_call(st.value):
+                            g = ix.resolve_method(pv, D._self_call(st.value))
+                            if g is not None:
+                                gp = [a.arg for a in g.node.args.args][1:]
+                                for r_ in ast.walk(g.node):
+                                    if isinstance(r_, ast.Return) and isinstance(r_.value, ast.Tuple) and r_.value.elts and isinstance(r_.value.elts[0], ast.Name):
+                                        hn = r_.value.elts[0].id
+                                        for q in ast.walk(g.node):
+                                            if isinstance(q, ast.Assign) and isinstance(q.targets[0], ast.Tuple) and q.targets[0].elts and isinstance(q.targets[0].elts[0], ast.Name) \
+                                                    and q.targets[0].elts[0].id == hn and isinstance(q.value, ast.Call) and isinstance(q.value.func, ast.Attribute) \
+                                                    and q.value.func.attr == 'partition' and isinstance(q.value.func.value, ast.Name) and q.value.func.value.id in gp \
+                                                    and q.value.args and isinstance(q.value.args[0], ast.Constant) and q.value.args[0].value == '.':
+                                                head_ok = True
                 whole = isinstance(call.args[0], ast.Name) and any(isinstance(v, ast.Call) and 'getText' in ast.unparse(v) for v in defs.get(call.args[0].id, []))
                 if not head_ok and not whole:
                     raise AnalysisError('%s: how `%s` is derived from the identifier is not recognised' % (f.where, name_arg))
@@ -126,6 +141,30 @@ def check(ix, rep):
                              'reference `req.value` is looked up under a key that is never there (and a default then decides the direction): an input read through a field '
                              'becomes an output' % (ast.unparse(src)[:60], name_arg), call.lineno)
     rep.floor('Variable constructions in the parser', npv, 1)
+    # a declaration in the text hands its io keyword to the table on every path: `input float req` makes req an input whatever was declared
+    # before (an early return in front of the ioType() handling leaves an API-declared variable an output)
+    from sa import flow as _flow
+    ndecl = 0
+    for f in [ix.resolve_method(M_.parser_visitors(ix)[0], 'visitVariableDeclaration')]:
+        if f is None:
+            raise AnalysisError('visitVariableDeclaration vanished')
+        rep.analysed(f)
+        ctxp = f.node.args.args[1].arg
+        cfg = _flow.CFG(f.node)
+        dom = cfg.dominators()
+        tests = [n for n in cfg.nodes() if isinstance(cfg.stmt[n], ast.If) and ('%s.ioType()' % ctxp) in ast.unparse(cfg.stmt[n].test)]
+        sets = [c for c in ast.walk(f.node) if isinstance(c, ast.Call) and D._self_call(c) == 'set_var_io_type']
+        exits = [n for n in cfg.reachable() if n == cfg.exit or isinstance(cfg.stmt[n], ast.Return)]
+        ndecl += 1
+        if not tests or not sets:
+            rep.fail('R-IOVARS', f.module.rel, f.qual, 'declaration:io-keyword', 'the io keyword of a declaration (`%s.ioType()`) is not handed to set_var_io_type' % ctxp, f.node.lineno)
+        elif all(any(t in dom[e] for t in tests) for e in exits if e in dom):
+            rep.ok('R-IOVARS', f.module.rel, f.qual, 'declaration:io-keyword', 'every path through a declaration looks at its io keyword', f.node.lineno)
+        else:
+            rep.fail('R-IOVARS', f.module.rel, f.qual, 'declaration:io-keyword', 'a path through visitVariableDeclaration returns before the io keyword is looked at: `input float x` in the text '
+                     'leaves x with the io type it had (an output, for a variable declared through the API first) and its predicates are treated as output predicates',
+                     f.node.lineno)
+    rep.floor('declaration builders checked for the io keyword', ndecl, 1)
     # the sixteen interface-aware monitors are separate objects: nothing hands one interpreter to two specifications
     from sa.rules import globals as _G
     _G.fixture_selfcheck(rep)
